@@ -258,7 +258,7 @@ func TestVerifC04TsValues(t *testing.T) {
 				if len(items) != a.v.unique.ItemsCount() {
 					badItems++
 				}
-				tr.Emit("Sk", "n", n, "skip", skip, "items", a.v.unique.ItemsCount(), "bad", badItems, "est", a.v.unique.Size(true),
+				tr.Emit("Sk", "cnts", n, "skip", skip, "items", a.v.unique.ItemsCount(), "bad", badItems, "est", a.v.unique.Size(true),
 					"op", "tsValues.merge", "beh", bi, "step", si+1)
 				pool = append(pool[:j:j], pool[j+1:]...)
 			}
